@@ -172,6 +172,7 @@ fn strat(t: Tier) -> proptest::strategy::BoxedStrategy<ValidCase> {
 
 pub fn def() -> PropertyDef {
     PropertyDef {
+        fuzz_targets: &[],
         id: "C08",
         level: "exploration",
         rule: "each generated history is muxed twice (fast start on / off), titles of 0..~5000 bytes move the mdat; top-level order, \
